@@ -44,6 +44,8 @@ fn level_args(tag: &str, short_base: u8) -> Vec<ArgSpec> {
         PvSpec { name: format!("pvtwo{}", tag), help: Some("pv help".into()), ..Default::default() },
         PvSpec { name: format!("pvhid{}", tag), hide: true, ..Default::default() },
     ]);
+    // the list parser behind an adaptor (which one varies with the level)
+    o.pv_adaptor = 1 + ((short_base / 4) % 2);
     // a hidden short alias declared before a visible one
     let upper = |b: u8| match (b as char).to_ascii_uppercase() {
         'V' | 'H' => 'Z', // kept free for the generated version / help flags
